@@ -53,7 +53,7 @@ PROPERTIES = {
         "rule": ("tie-heavy adaptive histories on CQueue (bursts of equal timestamps, adds at the current instant from between fetches, ties straddling a year "
                  "wrap) checked against an exact sequential model of the stated rule (current-instant group first in scheduling order, then scheduling order), "
                  "metamorphic replays of the same history on other (n,t), with an unrelated far-future population and after a junk allocation phase, and every "
-                 "operation sequence of the enumeration depth on 4 tiny configurations; the same model on Runtime<App> event forests (stage runtime); and at the net "
+                 "operation sequence of the enumeration depth on 4 tiny configurations; the same model on Runtime<App> event forests (stage runtime), every third of them also on a runtime that is paused and resumed (random n-event / until-time steps, with and without events added from outside while paused - pausing inside a group of equal timestamps or in front of one must not reorder anything); and at the net "
                  "level (stage net) rings of 1..4 modules executing generated emission trees (schedule_at / schedule_in / send / send_at / send_in over "
                  "channel-less chains with 0..2 transit gates, target instants on a coarse grid aligned with bucket / year boundaries): messages scheduled from "
                  "earlier instants for one instant are handled in scheduling order, everything a message triggers within its instant is handled before the next "
@@ -71,9 +71,11 @@ PROPERTIES = {
         "floor": {
             "quick": {"fetches_from_a_tie_group": 100000, "adds_at_current_time": 50000, "year_wraps": 5000, "metamorphic_replays": 3000,
                       "enumerated_sequences": 1000000, "rt_tie_groups_dispatched": 100000, "rt_metamorphic_replays": 5000,
+                      "rt_stepped_executions_checked_for_order": 40000, "rt_pauses_inside_a_group_of_equal_timestamps": 20000,
                       "net_root_pairs_same_instant": 1000000, "net_zero_delay_followups_before_next_root": 1000000, "net_current_instant_pairs": 1000000},
             "thorough": {"fetches_from_a_tie_group": 2000000, "adds_at_current_time": 1000000, "year_wraps": 100000, "metamorphic_replays": 60000,
                          "enumerated_sequences": 50000000, "rt_tie_groups_dispatched": 2000000, "rt_metamorphic_replays": 100000,
+                         "rt_stepped_executions_checked_for_order": 600000, "rt_pauses_inside_a_group_of_equal_timestamps": 300000,
                          "net_root_pairs_same_instant": 20000000, "net_zero_delay_followups_before_next_root": 20000000, "net_current_instant_pairs": 20000000},
         },
     },
@@ -112,7 +114,7 @@ PROPERTIES = {
     "C02": {
         "level": "exploration",
         "rule": ("generated event forests on Runtime<App> (1..2000 events, branching <= 5, delays 0 / 1 ns / around bucket and year boundaries / random, shared "
-                 "delays producing equal timestamps, add_event and add_event_in - also for the events scheduled before the run and in at_sim_start) x start times (0, 1 ns, bucket / year multiples, 10 s, 1e6 s where the scan "
+                 "delays producing equal timestamps, add_event and add_event_in - also for the events scheduled before the run and in at_sim_start) x start times (0, 1 ns, bucket / year multiples, 10 s, 1e6 s, and - on one-hour buckets - 1e7 s + 1 ns and 4e8 s + 3 ns, late in a long run where nanosecond timestamps have no exact f64 image; where the scan "
                  "from zero stays bounded) x calendar-queue parameters (and the default ones); every handler logs (id, scheduled, SimTime::now()), attempts "
                  "add_event in the past under catch_unwind on marked events, the clock writer is observed through hook H4 and the event set is walked "
                  "through H6; every third program is additionally driven in random n-event / until-time steps, and after every step add_event(sim_time() - 1 ns) "
@@ -130,9 +132,11 @@ PROPERTIES = {
         "floor": {
             "quick": {"events_handled": 1000000, "past_adds_rejected_in_handlers": 20000, "programs_with_nonzero_start": 50000,
                       "pre_run_adds_before_start_rejected": 50000, "clock_writes_observed": 1000000, "event_set_walks": 100000,
-                      "stepped_runs": 20000, "paused_adds_below_reported_time_rejected": 50000},
+                      "stepped_runs": 20000, "paused_adds_below_reported_time_rejected": 50000,
+                      "programs_starting_beyond_10_7_seconds": 2000},
             "thorough": {"events_handled": 50000000, "past_adds_rejected_in_handlers": 1000000, "programs_with_nonzero_start": 1000000,
-                         "pre_run_adds_before_start_rejected": 1000000, "clock_writes_observed": 50000000, "heap_events_handled": 1000000},
+                         "pre_run_adds_before_start_rejected": 1000000, "clock_writes_observed": 50000000, "heap_events_handled": 1000000,
+                         "programs_starting_beyond_10_7_seconds": 30000},
         },
     },
     "C10": {
@@ -204,7 +208,7 @@ PROPERTIES = {
     },
     "C08": {
         "level": "exploration",
-        "rule": ("declared gate chains [g0..gk], k = 1..20 hops (a twelfth: 17..50 hops, mostly without channels, so that more than 16 hops are traversed within one event), gates on one module / a line of modules / random modules, named gates or clusters, channels "
+        "rule": ("declared gate chains [g0..gk], k = 1..20 hops (a twelfth: 17..50 hops, mostly without channels, so that more than 16 hops are traversed within one event), gates on one module / a line of modules / random modules, named gates or clusters (a third of the cases creates the cluster members one by one with create_raw_gate: in descending order, starting in the middle, or with a foreign gate between the first and second member), channels "
                  "(bitrate, latency, a quarter of them with a small jitter: the arrival must then lie in [sum, sum + jitters]) on random hops; built by connect calls in EVERY permutation for k <= 5 (every orientation vector for k <= 4) "
                  "and random permutations / orientations above, with repeated calls mixed in; 1..4 uncontended messages per chain in both directions with send "
                  "and send_in, a fifth of them sent by a third module through a reference to the end gate (which, in a third of the cases, shuts itself down in the event of its last send). Oracle = the declared chain: kind of every gate, path_iter from both ends (exact mirror images), path_end, channel(), symmetry "
@@ -220,9 +224,11 @@ PROPERTIES = {
             "quick": {"deliveries_checked": 100000, "chain_walks_checked": 100000, "repeated_connect_calls": 20000, "third_peer_rejections": 50000,
                       "enumerated_connect_orders": 1000, "chains_with_channels": 30000, "chains_with_reverse_sends": 30000, "max_hops": 45,
                       "chains_with_more_than_16_consecutive_hops_without_channel": 1000,
-                      "sends_by_a_third_module_through_a_gate_reference": 10000},
+                      "sends_by_a_third_module_through_a_gate_reference": 10000,
+                      "chains_over_clusters_created_member_by_member_out_of_order": 3000},
             "thorough": {"deliveries_checked": 2000000, "chain_walks_checked": 2000000, "repeated_connect_calls": 400000, "third_peer_rejections": 1000000,
-                         "enumerated_connect_orders": 1000, "max_hops": 20},
+                         "enumerated_connect_orders": 1000, "max_hops": 20,
+                         "chains_over_clusters_created_member_by_member_out_of_order": 60000},
         },
     },
     "C19": {
@@ -275,7 +281,7 @@ PROPERTIES = {
                  "spawn bursts of N tasks that yield k times and optionally sleep to a common deadline (timer wake-up of N tasks at once), notify_waiters "
                  "broadcasts to N waiting tasks, wake chains of depth <= 2000 through oneshot / mpsc / semaphore / join handles (a third of them alternating between tokio::spawn and spawn_local tasks), one task draining up to 10000 "
                  "channel items in one instant (tokio coop budget), N tasks woken by a processing element that consumes the trigger message (the handler never runs "
-                 "in that event), a handler that fires its trigger and requests the shutdown of its module in the same event; N in {1,2,60,61,62,122,123,200,1000,5000}; each with tokio::spawn and with spawn_local "
+                 "in that event), a handler that fires its trigger and requests the shutdown of its module in the same event, 1..8 tasks awaiting timeout(1 ms / 1 s / 7 s, oneshot) that a sibling task answers in the same event (the timeout's timer is armed and disarmed within one instant) and then sleeping 1 ms..10 s; N in {1,2,60,61,62,122,123,200,1000,5000}; each with tokio::spawn and with spawn_local "
                  "(every tenth case: spawn_local work needing more than one LocalSet turn of 61 polls). Every task logs SimTime::now() after each await; the "
                  "instant its condition became true is known by construction; a later sentinel event of the module makes stranded work visible. Oracle: "
                  "logged now == enabling instant for every wake-up, every task finished at the end. Non-trivial = case with an instant needing > 61 polls; "
@@ -288,9 +294,11 @@ PROPERTIES = {
             "quick": {"wakeups_observed": 5000000, "instants_needing_more_than_61_polls": 3000, "instants_needing_more_than_122_polls": 2000,
                       "scenarios_with_spawn_local": 1500, "spawn_local_over_budget_cases": 300, "scenarios_wake_chain": 1500,
                       "scenarios_notify_broadcast": 500, "scenarios_channel_drain": 500, "scenarios_spawn_burst": 1500,
-                      "scenarios_message_consumed_by_processing_element": 500},
+                      "scenarios_message_consumed_by_processing_element": 500,
+                      "scenarios_timeout_answered_within_the_instant_then_sleep": 800},
             "thorough": {"wakeups_observed": 100000000, "instants_needing_more_than_61_polls": 60000, "instants_needing_more_than_122_polls": 40000,
-                         "scenarios_with_spawn_local": 30000, "spawn_local_over_budget_cases": 6000},
+                         "scenarios_with_spawn_local": 30000, "spawn_local_over_budget_cases": 6000,
+                         "scenarios_timeout_answered_within_the_instant_then_sleep": 15000},
         },
     },
     "C09": {
@@ -298,7 +306,7 @@ PROPERTIES = {
         "rule": ("root p0 with 1..3 victim children and a receiver p1; per victim 0..3 shutdown / restart cycles plus requests that arrive while it is down, "
                  "requested from a message handler or from a task, restart never / in d / at t, two victims sharing the same instants; every incarnation sends a message from its first start-up stage and one in the very event in which it requests its shutdown (both must be delivered); a quarter of the victims is an AsyncFn block (one task receiving the module's messages) instead of a hand-written module, ticker task, "
                  "self-message beat chain, data messages over a delayed channel (also in flight at the request / restart instant), messages passing through a "
-                 "transit gate of the victim on their way to p1 (sent while up, at the gate while down), the parent probing child() periodically; every fifth "
+                 "transit gate of the victim on their way to p1 (sent while up, at the gate while down), the parent probing child() periodically; a third of the hand-written victims installs a processing element that logs every event its stack sees, a quarter spawns a task in Module::reset that sleeps 1 / 16 / 106 ms and then logs (neither may show strictly inside a down interval; the at_sim_end call, which des delivers to every module, is exempt); every fifth "
                  "case places arrivals exactly on request / restart instants. All callbacks log into one global sequence. Oracle = evaluation of the statement: "
                  "down intervals (request, restart); mandatory entries (start stages once, in order, at exactly the restart time; exactly one reset per "
                  "effective shutdown; ticks / beats / data of the live incarnation at their exact times; transit deliveries iff the victim is up when the "
@@ -311,9 +319,11 @@ PROPERTIES = {
         "floor": {
             "quick": {"shutdowns_effective": 20000, "restarts": 15000, "data_messages_due_while_down": 50000, "transit_messages_due_while_down": 50000,
                       "transit_messages_in_flight_at_shutdown": 5000, "shutdown_requests_from_tasks": 10000, "shutdown_requests_from_handlers": 10000,
-                      "cases_with_deliberate_coincidences": 2000, "log_entries_checked": 5000000},
+                      "cases_with_deliberate_coincidences": 2000, "log_entries_checked": 5000000,
+                      "events_seen_by_victim_processing_stacks": 500000, "victims_spawning_a_sleeping_task_in_reset": 2000},
             "thorough": {"shutdowns_effective": 400000, "restarts": 300000, "data_messages_due_while_down": 1000000,
-                         "transit_messages_due_while_down": 1000000, "transit_messages_in_flight_at_shutdown": 100000, "log_entries_checked": 100000000},
+                         "transit_messages_due_while_down": 1000000, "transit_messages_in_flight_at_shutdown": 100000, "log_entries_checked": 100000000,
+                         "events_seen_by_victim_processing_stacks": 15000000, "victims_spawning_a_sleeping_task_in_reset": 40000},
         },
     },
     "C12": {
@@ -426,7 +436,7 @@ PROPERTIES = {
                  "des::runtime::random, choose the out gate and an extra send_in delay from it; start delays drawn with des::runtime::sample; tasks with "
                  "unbiased tokio::select! over three ready futures, select over interval.tick vs a long sleep, random sleeps; a third of the modules requests "
                  "shutdown-and-restart (the restart rebuilds and reseeds the module's tokio runtime), a third emits a message from at_sim_end (never dispatched; "
-                 "it must not reach a later simulation), a third runs 2..8 tasks that sleep to common deadlines and draw a random value when they wake; the driver draws through Runtime::random / rng_sample and reads the clock between build and run. For each (model, seed): executed twice back to back, once "
+                 "it must not reach a later simulation), a third runs 2..8 tasks that sleep to common deadlines and draw a random value when they wake; in half of the models two fifths of the message bodies are std HashMap<String,u32> / HashSet<String> tables of 17..80 entries with keys of differing length (per-instance random iteration order; the body size enters the message length and the transmission time over the 10 Mbit/s links, the length is part of the trace); the driver draws through Runtime::random / rng_sample and reads the clock between build and run. For each (model, seed): executed twice back to back, once "
                  "more after an unrelated simulation of another shape and seed, and (every fourth model) in a separate child process started with a random junk "
                  "allocation. The trace = every delivery (time, module path, kind, id, content, source, value drawn), timer completion, task wake-up, select "
                  "branch, plus final time / event count / remaining / result; all executions must be byte-identical. Non-trivial = model whose trace "
@@ -438,9 +448,10 @@ PROPERTIES = {
         "floor": {
             "quick": {"executions_compared": 10000, "separate_process_executions_compared": 800, "select_choices_observed": 80000,
                       "random_draws_observed": 300000, "restarts_observed": 4000, "runs_with_channel_jitter": 2000,
-                      "models_whose_history_changes_with_the_seed": 1400},
+                      "models_whose_history_changes_with_the_seed": 1400, "hashed_collection_bodies_delivered": 40000},
             "thorough": {"executions_compared": 200000, "separate_process_executions_compared": 16000, "select_choices_observed": 1600000,
-                         "restarts_observed": 80000, "models_whose_history_changes_with_the_seed": 28000},
+                         "restarts_observed": 80000, "models_whose_history_changes_with_the_seed": 28000,
+                         "hashed_collection_bodies_delivered": 800000},
         },
     },
     "C16": {
